@@ -251,6 +251,7 @@ def run(ctx):
             ctx.violation("C15/rich/orders-unstable", f"{hist[1]} vs {hist[2]}", {"defn": g.d, "route": list(route)})
     ctx.extra["rich_definitions"] = nrich
     documents_section(ctx)
+    lattice_section(ctx)
     ctx.sample({"graph": lines[len(lines) // 2]["conts"], "order0": lines[len(lines) // 2]["order0"], "how": lines[len(lines) // 2]["how"],
                 "orders_after_build_and_cycles": lines[len(lines) // 2]["obs"]}, limit=2)
 
@@ -298,6 +299,34 @@ def extra_documents():
             entries += f'<xtce:ParameterRefEntry parameterRef="T{kind[0]}{j}"/>'
     out.append(("time encodings", doc(types, params, entries), "ROOT"))
     return out
+
+
+def lattice_section(ctx):
+    """Every point of the attribute lattice of RoundTripAttrs.tla (each attribute at each of its values, the others at their
+    defaults) as a definition, built from objects and loaded from XML: the same byte-level cycle checks."""
+    from harness.props import c09
+    r = ctx.tlc_expect_ok("Gen_RoundTripAttrs", "Gen_RoundTripAttrs.cfg", workers=1, tag="attribute-lattice", count=False)
+    pts = []
+    for line in r.printed:
+        v = core.parse_printed(line)
+        if v[0] == "ATTR":
+            pts.append((v[1], v[2]))
+    if len(pts) < 40:
+        raise core.MachineryError(f"attribute lattice export too small: {len(pts)}")
+    for i, (a, v) in enumerate(pts):
+        d = c09.lattice_defn({a: v})
+        for route in (("obj",), ("xml", "prefix", False, False), ("xml", "default", True, False)):
+            try:
+                dobj = xdoc.make(d, route)
+                hist, docs, probs = cycles(dobj)
+            except Exception as e:  # noqa: BLE001
+                ctx.violation("C15/lattice/exception", f"{a}={v} via {route}: {type(e).__name__}: {e}"[:300], {"points": {a: v}, "route": list(route)})
+                continue
+            ctx.traces += 1
+            ctx.count(("lattice", a, v, route))
+            for p in probs:
+                ctx.violation("C15/lattice/" + p.split("(")[0].strip().replace(" ", "-")[:50], f"{a}={v} via {route}: {p}", {"points": {a: v}, "route": list(route)})
+    ctx.extra["lattice_points_cycled"] = len(pts)
 
 
 def documents_section(ctx):
